@@ -344,6 +344,11 @@ def _sincos_axioms(other):
         ax = [v <= 1, v >= -1]
         if is_const(arg) and frac_of(arg) == 0:
             ax.append(v == (0 if other == "cos" else 1))
+        for (a2, v2) in earlier:
+            s = simp(arg + a2)
+            if is_const(s) and frac_of(s) == 0:
+                # parity: sin(-t) = -sin t, cos(-t) = cos t
+                ax.append(v == -v2 if other == "cos" else v == v2)
         return ax
     return f
 
@@ -381,7 +386,7 @@ def _mono_axioms(lo=None, hi=None, at0=None):
 AXIOMS_DOC = [
     "exp(t) > 0; exp(0) = 1; exp(t)*exp(-t) = 1 (instances with syntactically opposite arguments); exp strictly monotone (pairwise instances)",
     "log(1) = 0; log strictly monotone on positive arguments (pairwise instances); log(exp(t)) = t and exp(log(t)) = t (t > 0 recorded as side condition) by construction",
-    "-1 <= sin, cos <= 1; sin(t)^2 + cos(t)^2 = 1 for each argument t; sin(0)=0, cos(0)=1",
+    "-1 <= sin, cos <= 1; sin(t)^2 + cos(t)^2 = 1 for each argument t; sin(0)=0, cos(0)=1; parity sin(-t)=-sin t, cos(-t)=cos t (instances)",
     "arctan strictly monotone, |arctan| < pi/2 (pi a symbolic constant with 3.14159 < pi < 3.1416)",
     "Phi (normal cdf): 0 < Phi < 1, Phi(0)=1/2, Phi(t)+Phi(-t)=1, strictly monotone",
     "sqrt(t) = s with s >= 0 and s*s = t (algebraic; side condition t >= 0)",
@@ -412,8 +417,15 @@ def _exp_term(t):
         return inv[k]
     if is_const(t) and frac_of(t) == 0:
         return _ONE
+    key = ("exp", t.sexpr())
+    isnew = key not in c.apps
     v = c.app("exp", t, _exp_axioms)
     c.data.setdefault("exp_of", {})[v.sexpr()] = t
+    if isnew:
+        # exp(-log(u)) * u == 1 (the partner exp(log u) was cancelled to u by construction)
+        k2 = simp(-t).sexpr()
+        if k2 in inv:
+            c.pc.append(v * inv[k2] == 1)
     return v
 
 
